@@ -34,7 +34,11 @@ var argPool = []string{"1", "x", "2-1", "a || b", "println(\"side\")", "y = 5", 
 
 func genTemplate(c *Ctx) tmpl {
 	np := c.R.Intn(5)
-	ps := []string{"a", "b", "c", "d"}[:min(np, 4)]
+	pool := []string{"a", "b", "c", "d"}
+	if c.R.Pct(30) { // constant-looking (all upper case) parameter names: bound afresh at every call site
+		pool = []string{"X", "COND", "A_B", "N2"}
+	}
+	ps := pool[:min(np, 4)]
 	u := func() string {
 		if len(ps) == 0 {
 			return fmt.Sprint(c.R.Intn(9))
@@ -272,9 +276,7 @@ func one(c *Ctx, s sess) {
 		hd := strings.ReplaceAll(DumpList(hand.Statements, true), " ", "")
 		if ed != hd {
 			sig := "expansion-differs-from-hand-substitution"
-			if calleeSite {
-				sig = "expansion-skips-callee-position"
-			}
+			_ = calleeSite
 			c.Fail(sig, "MACRO "+Hx([]byte(strings.Join(s.withMacros, "\x00"))), fmt.Sprintf("input=%q hand=%q", in, s.handSubst[i]))
 			okAll = false
 		}
@@ -314,6 +316,8 @@ func run(c *Ctx) {
 	one(c, sess{[]string{"m = macro(a,b){quote(unquote(a)-unquote(b))}\nm(10,2-1)\n"}, []string{"((10)-(2-1))\n"}})
 	one(c, sess{[]string{"mk = macro(a){quote(x => x + unquote(a))}\nmk(1)(2)\n"}, []string{"(x => x + (1))(2)\n"}})
 	one(c, sess{[]string{"m = macro(f){quote(unquote(f)(1))}\nm(len)\n"}, []string{"((len)(1))\n"}})
+	one(c, sess{[]string{"sq = macro(X){quote(unquote(X)*unquote(X))}\nsq(3); sq(1+1)\n"}, []string{"((3)*(3)); ((1+1)*(1+1))\n"}})
+	one(c, sess{[]string{"pair = macro(a,b){quote([unquote(a),unquote(b)])}\npair(1,2); pair(3,4)\n", "pair(5,6)\n"}, []string{"([(1),(2)]); ([(3),(4)])\n", "([(5),(6)])\n"}})
 	n := 500
 	if c.Thorough() {
 		n = 20000
